@@ -509,6 +509,16 @@ GMetaSession ==
                         MetaStep(s, [In0 EXCEPT !.uri = U_session_list, !.args = a])
       [] OTHER     -> \E id \in R(SidArgs) : MetaStep(s, [In0 EXCEPT !.uri = U_session_get, !.id = id])
 
+\* wamp.session.modify_details: identity details of a session (often the caller's own) change or go
+GModify ==
+  \E s \in J : \E own \in R(1..3) : \E id \in R(IF own = 1 THEN SidArgs ELSE {sess[v].id : v \in J}) :
+  \E key \in W(<<"authid", "authrole", "authrole", "authrole", "color", "session">>),
+     val \in W(<<"alice", "bob", "u1", "admin", "user", "trusted", "red", "blue", "", "">>), short \in W(<<FALSE, FALSE, FALSE, FALSE, FALSE, TRUE>>) :
+    LET v == IF key = "color" /\ val \notin {"red", "blue", ""} THEN "red"
+             ELSE IF key = "authid" /\ val \notin {"alice", "bob", "u1", ""} THEN "bob"
+             ELSE IF key = "authrole" /\ val \notin {"admin", "user", "trusted", ""} THEN "admin" ELSE val
+    IN MetaStep(s, [In0 EXCEPT !.uri = U_session_modify_details, !.id = id, !.args = IF short THEN <<key>> ELSE <<key, v>>])
+
 GMetaReg ==
   \E s \in J : \E which \in R(1..6) : \E id \in R(RegArgs), k \in R(Keys), u \in R(Targets) :
     CASE which = 1 -> MetaStep(s, [In0 EXCEPT !.uri = U_registration_list])
@@ -624,6 +634,7 @@ GenNext ==
        [] kind = "stallc" -> GStallCaller
        [] kind = "resume" -> GResume
        [] kind = "msess"  -> GMetaSession
+       [] kind = "mmod"   -> GModify
        [] kind = "mreg"   -> GMetaReg
        [] kind = "msub"   -> GMetaSub
        [] kind = "kill"   -> GKill
